@@ -284,6 +284,27 @@ def main(argv=None):
         suffix = "" if (extra and extra.get("counterexample")) else " no-failing-input-found"
         print("VIOLATION property=%s replay=%s obligation=%s%s" % (prop, p, f.get("label") or f.get("site"), suffix))
         rc = 1
+    # The scenario family of the property runs against the real engine (a) when the verifier could not decide a unit (lost
+    # anchor, unsupported construct): a history that really fails is a violation even then; (b) always in the thorough tier.
+    # Properties with an open, natively replayed known finding are left out: their family reproduces that finding by design.
+    native_note = None
+    open_native = any(k["property"] == prop and k.get("status", "open") == "open" for k in known)
+    if rc == 0 and not a.units and prop in native.FAMILIES and not open_native and (undecided or a.tier == "thorough"):
+        synthetic = dict(label=None, site="scenario family run natively (%s)" % ("verifier undecided" if undecided else "thorough tier"), fn=None,
+                         message="native history check", rendered="\n".join(undecided))
+        runit = dict(unit="native:" + prop, engine="native", path=None, cmd="tools/vx/native.py family", fns=[])
+        try:
+            extra = native.search_counterexample(prop, synthetic, runit, REPO, VERIF, BUILD)
+        except Exception as e:
+            extra = dict(counterexample=None, counterexample_search="native family could not run: %s" % e)
+        native_note = extra.get("counterexample_search")
+        if extra.get("counterexample"):
+            pth = write_replay(prop, synthetic, runit, extra)
+            violations.append((synthetic, runit))
+            print("VIOLATION property=%s replay=%s obligation=history:%s" % (prop, pth, extra["counterexample"].get("scenario") or extra["counterexample"].get("failure", "")[:80]))
+            rc = 1
+        else:
+            print("native: %s" % native_note)
     if undecided and rc == 0:
         for u in undecided:
             print("UNDECIDED: %s" % u)
